@@ -1,5 +1,5 @@
 """property -> rules"""
-from . import rules_dd, rules_bounds, rules_limits, rules_tools, rules_conv
+from . import rules_dd, rules_bounds, rules_limits, rules_tools, rules_conv, rules_handles
 
 CLANG = "clang 14 parser, constant evaluator and CFG builder (via tools/h4x.cc)"
 CDB = "compile flags taken from ninja -t compdb of /repo/_build (or a throw-away cmake configure)"
@@ -82,6 +82,16 @@ PROPS["C06"] = {
     "trusted": [CLANG, CDB],
     "assumptions": [],
     "level_text": 'Exhaustive discharge of the finite table and kernel-path obligations; because the kernels are data-oblivious the result holds for every bit pattern, count and stride at once (a test would need 2^64 values per type).', "level_note": "Trusted: clang front end and constant evaluator, the format's element sizes (SPEC_SIZE), host endianness taken from the build's H4_WORDS_BIGENDIAN.", "technique": 'table obligations + symbolic byte-cell interpreter over clang ASTs',
+}
+
+PROPS["C13"] = {
+    "rules": [rules_handles.rule_F6a, rules_handles.rule_F6b, rules_handles.rule_F6c, rules_handles.rule_F6d, rules_handles.rule_sdid_layout],
+    "level": "other",
+    "explanation": "TODO",
+    "rule_text": "TODO",
+    "trusted": [CLANG, CDB],
+    "assumptions": [],
+    "level_text": "TODO", "level_note": "TODO", "technique": "TODO",
 }
 
 NOT_APPLICABLE = {
